@@ -36,6 +36,7 @@ Line protocol of the C20 driver.
                                             → "err:…" | "ok n" then per frame " | <velrev> <order>"     (pathReverseL)
   createx <cls x<hex>> <idx|absent> <per absent|0|1> <dim absent|x<hex>> <velocity absent|0|1>
                                             → "external" | "err:<Kind>" | "base vd=<0|1>" | "obj …"      (createOrderParameterX)
+  effects <var> <op> <pos> <vel> <box>      → "pos=<0|1> vel=<0|1> box=<0|1>": which System fields `calculate` changes (Geom.effects)
 -/
 
 def toV3s : List Rat → Option (List V3)
@@ -441,6 +442,15 @@ def handleFollowUp (toks : List String) : Option String :=
     match parseVar? v with
     | some var => some (handlePrevL var rest)
     | none => some "bad-op"
+  | "effects" :: v :: rest =>
+    match parseVar? v, parseOp rest with
+    | some var, some (op, r1) =>
+      match parseSys r1 with
+      | some sy =>
+        let r := calculate var op sy
+        some s!"pos={showB (decide (r.2.pos ≠ sy.pos))} vel={showB (decide (r.2.vel ≠ sy.vel))} box={showB (decide (r.2.box ≠ sy.box))}"
+      | none => some "bad-op"
+    | _, _ => some "bad-op"
   | "createx" :: cls :: rest =>
     let idx : Option (Option IdxVal × List String) :=
       match rest with
